@@ -8,6 +8,8 @@ package standard
 
 // the account a request addresses: by public key when one is supplied, otherwise by name
 //@ spec resolved(s *Service, name string, pubKey []byte) any = if pubKey == nil then fetchedByName(s.fetcher, name) else fetchedByKey(s.fetcher, bytes(pubKey))
+// (model of the interface's signerFor in the refinement)
+//@ spec stdSignerFor(self any, name string, pubKey []byte) any = resolved(unbox(self, "*Service"), name, pubKey)
 
 //@ func (*SigningRoot).HashTreeRoot
 //@ flag noalloc
@@ -106,8 +108,6 @@ package standard
 
 // ---- batch endpoints: the disjoint-parallel rule over util.Scatter (see /verif/DESIGN.md, "parallel-for") ----
 
-//@ spec nameAt(names []string, i int) string = if i < len(names) then names[i] else ""
-//@ spec keyAt(keys [][]byte, i int) []byte = if i < len(keys) then keys[i] else nil
 //@ spec prechecked(s *Service, client string, rd *ruler.RulesData, acc any, name string, pk []byte, action string) bool = rd != nil && acc != nil && acc == resolved(s, name, pk) && rd.WalletName == nameOf(walletOf(acc)) && rd.AccountName == nameOf(acc) && bytes(rd.PubKey) == pkOfAcc(acc) && ckey(client, rd.WalletName, rd.AccountName, action) in checkedset
 //@ spec attDataOK(d *rules.SignBeaconAttestationData) bool = d != nil && d.BeaconBlockRoot != nil && d.Domain != nil && d.Source != nil && d.Source.Root != nil && d.Target != nil && d.Target.Root != nil
 
